@@ -379,4 +379,106 @@ theorem decode_total (C : CodecNew) (dec : Decoder) (inp : Bytes) (h : InvDec de
             · exact fun q hq => absurd hq List.not_mem_nil
             · exact hsz
 
+/-! ## 5. the bounds contained in the invariant -/
+
+/-- at most `maxShardSets + 1` shard sets, whatever `newest` is -/
+theorem sets_le {dec : Decoder} (h : InvDec dec) : dec.sets.length ≤ maxShardSets + 1 := by
+  have hN := h.n_pos
+  apply length_le_of_keys dec.sets
+    (fun s => slot dec.n (dec.newest * u32 dec.n).toNat (s.id.toNat * dec.n))
+  · intro s hs
+    obtain ⟨a0, a1⟩ := h.age s hs
+    exact Nat.lt_succ_of_le (slot_le hN (dec.newest * u32 dec.n).isLt (h.id_small s hs)
+      (age_toNat h.n_le _ _ (h.id_small s hs) a0 a1))
+  · refine h.ids_distinct.imp_of_mem ?_
+    intro a b ha hb hne heq
+    exact hne (BitVec.eq_of_toNat_eq (slot_inj hN (h.id_small a ha) (h.id_small b hb) heq))
+
+/-- held packets: fewer than `d` per set -/
+theorem held_le {dec : Decoder} (h : InvDec dec) :
+    heldPackets dec ≤ (maxShardSets + 1) * (dec.d - 1) := by
+  have h1 := sum_map_le (fun s : ShardSet => s.pkts.length) (dec.d - 1) dec.sets
+    (fun s hs => by have := h.pkt_count s hs; omega)
+  exact Nat.le_trans h1 (Nat.mul_le_mul_right _ (sets_le h))
+
+theorem held_le_const {dec : Decoder} (h : InvDec dec) : heldPackets dec ≤ (maxShardSets + 1) * 255 :=
+  Nat.le_trans (held_le h) (Nat.mul_le_mul_left _ (by have := h.d_le; omega))
+
+/-- held bytes: every packet is at most `mtuLimit` bytes -/
+theorem heldBytes_le {dec : Decoder} (h : InvDec dec) :
+    heldBytes dec ≤ (maxShardSets + 1) * 255 * mtuLimit := by
+  have hset : ∀ s ∈ dec.sets, (s.pkts.map List.length).sum ≤ 255 * mtuLimit := by
+    intro s hs
+    have h1 := sum_map_le (fun q : Bytes => q.length) mtuLimit s.pkts
+      (fun q hq => (h.pkt_size s hs q hq).2)
+    have h2 : s.pkts.length ≤ 255 := by have := h.pkt_count s hs; have := h.d_le; omega
+    exact Nat.le_trans h1 (Nat.mul_le_mul_right _ h2)
+  have h1 := sum_map_le (fun s : ShardSet => (s.pkts.map List.length).sum) (255 * mtuLimit) dec.sets hset
+  rw [Nat.mul_assoc]
+  exact Nat.le_trans h1 (Nat.mul_le_mul_right _ (sets_le h))
+
+/-- the auto-tune ring: fixed size, and every index the copy loop of `FindPeriod` uses is in range -/
+theorem ring_in_range {dec : Decoder} (h : InvDec dec) :
+    dec.tune.pulses.length = maxAutoTuneSamples ∧ dec.tune.count ≤ maxAutoTuneSamples ∧
+    ∀ i < dec.tune.count, (dec.tune.head + i) % maxAutoTuneSamples < dec.tune.pulses.length := by
+  obtain ⟨hlen, _, _, hcount, _⟩ := h.tune_wf
+  refine ⟨hlen, hcount, fun i _ => ?_⟩
+  rw [hlen]
+  exact Nat.mod_lt _ maxAutoTuneSamples_pos
+
+/-! ## 6. histories -/
+
+theorem run_nil (C : CodecNew) (dec : Decoder) : run C dec [] = dec := rfl
+
+theorem run_cons (C : CodecNew) (dec : Decoder) (q : Bytes) (rest : List Bytes) :
+    run C dec (q :: rest) = run C (dec.decode C q).st rest := rfl
+
+theorem run_append (C : CodecNew) (dec : Decoder) (l1 l2 : List Bytes) :
+    run C dec (l1 ++ l2) = run C (run C dec l1) l2 := by
+  simp only [run, List.foldl_append]
+
+/-- the invariant holds along every history of packets of admissible length -/
+theorem inv_run (C : CodecNew) {dec : Decoder} (h : InvDec dec) :
+    ∀ (pkts : List Bytes), (∀ q ∈ pkts, fecHeaderSize ≤ q.length ∧ q.length ≤ mtuLimit) →
+      InvDec (run C dec pkts) := by
+  intro pkts
+  induction pkts generalizing dec with
+  | nil => intro _; exact h
+  | cons q rest ih =>
+    intro hp
+    have hq := hp q (List.mem_cons_self ..)
+    rw [run_cons]
+    exact ih (decode_total C dec q h hq.1 hq.2).2 (fun r hr => hp r (List.mem_cons_of_mem _ hr))
+
+/-- no call panics along the way: after any prefix of the history the next call returns normally -/
+theorem run_never_panics (C : CodecNew) {dec : Decoder} (h : InvDec dec) (pkts : List Bytes)
+    (hp : ∀ q ∈ pkts, fecHeaderSize ≤ q.length ∧ q.length ≤ mtuLimit)
+    (pre : List Bytes) (q : Bytes) (post : List Bytes) (hsplit : pkts = pre ++ q :: post) :
+    ((run C dec pre).decode C q).panic = false := by
+  have hpre : ∀ r ∈ pre, fecHeaderSize ≤ r.length ∧ r.length ≤ mtuLimit :=
+    fun r hr => hp r (by rw [hsplit]; exact List.mem_append_left _ hr)
+  have hq := hp q (by rw [hsplit]; exact List.mem_append_right _ (List.mem_cons_self ..))
+  exact (decode_total C _ q (inv_run C h pre hpre) hq.1 hq.2).1
+
+/-- the same with the panic flags accumulated in the fold -/
+def runPanics (C : CodecNew) (dec : Decoder) (pkts : List Bytes) : Bool :=
+  (pkts.foldl (fun (acc : Decoder × Bool) q =>
+    ((acc.1.decode C q).st, acc.2 || (acc.1.decode C q).panic)) (dec, false)).2
+
+theorem runPanics_aux (C : CodecNew) : ∀ (pkts : List Bytes) (dec : Decoder) (b : Bool), InvDec dec →
+    (∀ q ∈ pkts, fecHeaderSize ≤ q.length ∧ q.length ≤ mtuLimit) →
+    (pkts.foldl (fun (acc : Decoder × Bool) q =>
+      ((acc.1.decode C q).st, acc.2 || (acc.1.decode C q).panic)) (dec, b)).2 = b
+  | [], _, _, _, _ => rfl
+  | q :: rest, dec, b, h, hp => by
+    have hq := hp q (List.mem_cons_self ..)
+    obtain ⟨e1, e2⟩ := decode_total C dec q h hq.1 hq.2
+    simp only [List.foldl_cons, e1, Bool.or_false]
+    exact runPanics_aux C rest _ b e2 (fun r hr => hp r (List.mem_cons_of_mem _ hr))
+
+theorem runPanics_false (C : CodecNew) {dec : Decoder} (h : InvDec dec) (pkts : List Bytes)
+    (hp : ∀ q ∈ pkts, fecHeaderSize ≤ q.length ∧ q.length ≤ mtuLimit) :
+    runPanics C dec pkts = false :=
+  runPanics_aux C pkts dec false h hp
+
 end KcpVerif.Lemmas.FecBound
